@@ -123,9 +123,15 @@ type Recorder struct {
 	mu    sync.Mutex
 	Calls []RecCall
 	Errs  int
+	// Reenter, if set, is called (not nested) every time the filter function "fre" runs.
+	Reenter func()
+	inside  bool
 }
 
 func (r *Recorder) add(fn string, arg interface{}, failed bool) {
+	if r.inside {
+		return // a call made by the re-entrant evaluation, not by the call under test
+	}
 	r.mu.Lock()
 	r.Calls = append(r.Calls, RecCall{Fn: fn, Arg: gen.DeepCopy(arg), Err: failed})
 	if failed {
@@ -150,6 +156,11 @@ func BuildConfig(rec *Recorder, funcs, accessor bool) jsonpath.Config {
 		for _, name := range gen.FilterNames {
 			name := name
 			cfg.SetFilterFunction(name, func(v interface{}) (interface{}, error) {
+				if name == "fre" && rec != nil && rec.Reenter != nil && !rec.inside {
+					rec.inside = true
+					rec.Reenter()
+					rec.inside = false
+				}
 				out, err := gen.ApplyFilter(name, v)
 				if rec != nil {
 					rec.add(name, v, err != nil)
